@@ -104,7 +104,7 @@ func genWorldKeyed(src *choice.Src, o WOpts, keySeed uint64) *World {
 		case 6: // a chain of links that enters a cycle not containing -o itself
 			w.OutKind, w.Out, w.PreOut = "symlink-cycle", "gen.go", nil
 		case 7: // a dangling link with a relative target, in a directory that is not cwd
-			w.OutKind, w.Out, w.PreOut = "symlink-dangling", "out/gen.go", nil
+			w.OutKind, w.Out, w.PreOut = "symlink-dangling", choice.Pick(src, "danglingout", []string{"out/gen.go", "gen.go"}), nil
 		case 8: // a link to itself
 			w.OutKind, w.Out, w.PreOut = "symlink-self", "gen.go", nil
 		case 4, 5:
